@@ -13,6 +13,11 @@
 #include <string>
 #include <csignal>
 #include <cstdlib>
+#include <algorithm>
+#include <cerrno>
+#include <chrono>
+#include <poll.h>
+#include <sys/prctl.h>
 #include <sys/wait.h>
 #include <unistd.h>
 
@@ -44,6 +49,7 @@ inline void forked(Ctx &ctx, const std::function<void(Ctx &)> &body, bool leakCh
     throw Failure{"harness: fork() failed"};
   if (pid == 0) {
     close(fd[0]);
+    prctl(PR_SET_PDEATHSIG, SIGKILL);  // never outlive the harness process (an orphan would spin for ever)
     // the parent has no watchdog thread (PBT_NO_WATCHDOG): a child that hangs ends itself, which the parent reports
     alarm(getenv("PBT_HANG_S") ? (unsigned)atoi(getenv("PBT_HANG_S")) : 300u);
     Ctx c;
@@ -87,11 +93,34 @@ inline void forked(Ctx &ctx, const std::function<void(Ctx &)> &body, bool leakCh
   std::string got;
   char buf[4096];
   ssize_t r;
-  while ((r = read(fd[0], buf, sizeof buf)) > 0)
-    got.append(buf, (size_t)r);
+  // the child bounds itself with alarm(); should that fail (a child wedged with the signal blocked, a runtime that
+  // re-arms the timer) the parent ends it 60 s after the budget: it must never wait for ever, nor leave an orphan
+  const int budgetMs = ((getenv("PBT_HANG_S") ? atoi(getenv("PBT_HANG_S")) : 300) + 60) * 1000;
+  const auto t0 = std::chrono::steady_clock::now();
+  bool killedByParent = false;
+  for (;;) {
+    struct pollfd pfd = {fd[0], POLLIN, 0};
+    const long left = budgetMs - (long)std::chrono::duration_cast<std::chrono::milliseconds>(std::chrono::steady_clock::now() - t0).count();
+    if (left <= 0) {
+      kill(pid, SIGKILL);
+      killedByParent = true;
+      break;
+    }
+    int pr = poll(&pfd, 1, (int)std::min(left, 1000L));
+    if (pr < 0 && errno != EINTR)
+      break;
+    if (pr > 0) {
+      r = read(fd[0], buf, sizeof buf);
+      if (r <= 0)
+        break;
+      got.append(buf, (size_t)r);
+    }
+  }
   close(fd[0]);
   int st = 0;
   waitpid(pid, &st, 0);
+  if (killedByParent)
+    throw Failure{"HANG: the child process running the case did not finish within its time budget (ended by the harness)"};
   bool done = false;
   std::string failure;
   size_t pos = 0;
